@@ -360,17 +360,35 @@ class Downloader(ABC):
                                     )
                                 )
                                 async for chunk in response.stream():
+                                    # A chunk may be larger than the capacity of
+                                    # the rate limiter: it is accounted for and
+                                    # written in pieces the limiter can hold,
+                                    # otherwise the excess would not be limited
+                                    piece_size = max(len(chunk), 1)
                                     if self._settings.rate_limiter:
-                                        await self._settings.rate_limiter.acquire(
+                                        piece_size = max(
+                                            1,
                                             min(
-                                                len(chunk),
-                                                self._settings.rate_limiter.max_rate,
-                                            )
+                                                piece_size,
+                                                int(
+                                                    self._settings.rate_limiter.max_rate
+                                                ),
+                                            ),
                                         )
 
-                                    size += len(chunk)
-                                    slow_rate_protector.rate(len(chunk))
-                                    await fp.write(chunk)
+                                    for offset in range(
+                                        0, max(len(chunk), 1), piece_size
+                                    ):
+                                        piece = chunk[offset : offset + piece_size]
+
+                                        if self._settings.rate_limiter:
+                                            await self._settings.rate_limiter.acquire(
+                                                len(piece)
+                                            )
+
+                                        size += len(piece)
+                                        slow_rate_protector.rate(len(piece))
+                                        await fp.write(piece)
                             except Exception as ex:  # pylint: disable=W0718
                                 await retry(
                                     f"An error `{ex.__class__.__qualname__}: {ex}`"
